@@ -133,9 +133,17 @@ def _mk_tableau(rows):
     return cirq.CliffordTableau(n, rs=rs, xs=xs, zs=zs)
 
 
+def _pauli_name(gate) -> str:
+    """'X' / 'Y' / 'Z' / 'I' of a Pauli (or identity) gate object, by gate equality (not by its printed text)."""
+    for name, ref in (("X", cirq.X), ("Y", cirq.Y), ("Z", cirq.Z), ("I", cirq.I)):
+        if gate == ref:
+            return name
+    raise Violation(f"expected a Pauli gate, got {type(gate).__name__}")
+
+
 def _pt(g, p):
     to, flip = g.pauli_tuple(PG[p])
-    return str(to), (-1 if flip else 1)
+    return _pauli_name(to), (-1 if flip else 1)
 
 
 # =========================================================================================== E1: single-qubit group
@@ -277,7 +285,7 @@ def oracle_e1(r):
         raise Violation(f"decompose_rotation gives {len(rot)} rotations (documented: zero, one or two)")
     m = np.eye(2, dtype=complex)
     for pa, qt in rot:
-        m = _rot(str(pa), qt) @ m
+        m = _rot(_pauli_name(pa), qt) @ m
     _phase_eq("decompose_rotation product", m, U)
     _phase_eq("decompose_once(gate(q))", _ops_matrix(cirq.decompose_once(g.on(q)), [q]), U)
     _phase_eq("Circuit(gate(q)).unitary()", cirq.Circuit(g.on(q)).unitary(), U)
@@ -719,8 +727,12 @@ def oracle_traj(r):
 # ------------------------------------------------------------------------------------------- exact distributions
 
 
+def _key_name(k) -> str:
+    return k.name if isinstance(k, cirq.MeasurementKey) else k
+
+
 def _rec_key(d):
-    return tuple(sorted((str(k), tuple(int(b) for b in np.asarray(v).reshape(-1))) for k, v in d.items()))
+    return tuple(sorted((_key_name(k), tuple(int(b) for b in np.asarray(v).reshape(-1))) for k, v in d.items()))
 
 
 def _ref_distribution(c, init):
